@@ -617,9 +617,9 @@ pub fn unmet(flat: &Flat, snap: &Snap) -> (Vec<u16>, Vec<M>) {
             pats.push(p.uid);
         }
     }
-    for m in &flat.methods {
-        let total: u32 = snap.counts_of(*m).map(|c| c.iter().sum()).unwrap_or(0);
-        if total == 0 {
+    // every mentioned method appears in the snapshot (also those configured through `specials`)
+    for (m, counts) in &snap.counts {
+        if counts.iter().sum::<u32>() == 0 {
             methods.push(*m);
         }
     }
